@@ -79,12 +79,16 @@ def env_trace(tid, beh, cfg, rng, episodes=2, fault_prob=0.15):
             acts.append((j, m))
             nxt[j - 1] += 1
             done += 1
+        if done == total and fault_prob > 0 and rng.random() < 0.7:
+            # the episode is over: every job is "a job with no operations left"
+            jf = rng.randint(1, len(inst))
+            s.env_step(jf, rng.choice(inst[jf - 1][-1]["ms"] + [0]))
     s.env_fresh_run(acts)
     return s.trace()
 
 
 # ---------------------------------------------------------------------------
-def multi_traces(tid0, rng, gen_kw, cfg, resets, steps_rng):
+def multi_traces(tid0, rng, gen_kw, cfg, resets, steps_rng, fault_prob=0.0):
     """One multi-instance environment, `resets` episodes; one trace per episode."""
     from job_shop_lib.generation import GeneralInstanceGenerator
     from job_shop_lib.reinforcement_learning import MultiJobShopGraphEnv
@@ -145,8 +149,17 @@ def multi_traces(tid0, rng, gen_kw, cfg, resets, steps_rng):
         s._ev({"a": "MultiReset", "out": "ok", "episode": episode, "eobs": s._eobs(r[0])})
         nxt = [1] * len(inst)
         total = sum(len(j) for j in inst)
+        nm_i = max(m for job in inst for op in job for m in op["ms"])
         for _ in range(min(total, steps_rng.randint(1, 6))):
             ready = [j for j in range(1, len(inst) + 1) if nxt[j - 1] <= len(inst[j - 1])]
+            if steps_rng.random() < fault_prob:
+                # invalid decisions that are nevertheless inside the (largest-instance) action space: a machine id
+                # beyond this episode's instance, an ineligible one, a finished job
+                j = steps_rng.randint(1, len(inst))
+                m = steps_rng.choice([nm_i + 1, nm_i + 2, steps_rng.randint(1, nm_i + 1)])
+                fin = nxt[j - 1] > len(inst[j - 1])
+                if fin or m not in inst[j - 1][nxt[j - 1] - 1]["ms"]:
+                    s.env_step(j, m)
             j = steps_rng.choice(ready)
             m = steps_rng.choice(inst[j - 1][nxt[j - 1] - 1]["ms"])
             if s.env_step(j, m) != "ok":
